@@ -83,6 +83,9 @@ var nonNegMeasure = map[string]bool{"runes": true, "bytes": true, "uint": true, 
 
 var (
 	reBoundTwo = regexp.MustCompile(`^strings\.Split\(valid\.ParseValidNameKV\(validName\)#1, "~"\)\[(0|1)\]$`)
+	// the same two bounds cut out by index instead of Split: V[:Index(V,'~')] and V[Index(V,'~')+1:]
+	reBoundLoIdx = regexp.MustCompile(`^valid\.ParseValidNameKV\(validName\)#1\[:strings\.(?:Last)?Index(?:Byte)?\(valid\.ParseValidNameKV\(validName\)#1, (?:126|"~")\)\]$`)
+	reBoundHiIdx = regexp.MustCompile(`^valid\.ParseValidNameKV\(validName\)#1\[\(strings\.(?:Last)?Index(?:Byte)?\(valid\.ParseValidNameKV\(validName\)#1, (?:126|"~")\) \+ 1\):\]$`)
 	reBoundOne = regexp.MustCompile(`^valid\.ParseValidNameKV\(validName\)#1$`)
 )
 
@@ -403,6 +406,10 @@ func runC01(c *Ctx) {
 				if spec.two {
 					if m := reBoundTwo.FindStringSubmatch(name); m != nil {
 						role = map[string]string{"0": "lo", "1": "hi"}[m[1]]
+					} else if reBoundLoIdx.MatchString(name) {
+						role = "lo"
+					} else if reBoundHiIdx.MatchString(name) {
+						role = "hi"
 					}
 				} else if reBoundOne.MatchString(name) {
 					role = "b"
